@@ -27,6 +27,12 @@ func init() {
 	}, runC16)
 
 	addVariants(
+		Variant{ID: "c16-r8-headersize-guard-off-by-one", Prop: "C16", File: "replication/binlog_event.go",
+			Old: "\treturn f.HeaderSizes[typ-1]\n", New: "\tif int(typ) >= len(f.HeaderSizes) {\n\t\treturn 0\n\t}\n\treturn f.HeaderSizes[typ-1]\n",
+			Expect: "C16-R8 default@HeaderSize"},
+		Variant{ID: "c16-r6-later-format-descriptions-skipped", Prop: "C16", File: "streamer.go",
+			Old: "\t\tif ev.IsFormatDescription() {\n", New: "\t\tif ev.IsFormatDescription() {\n\t\t\tif !format.IsZero() {\n\t\t\t\tcontinue\n\t\t\t}\n",
+			Expect: "C16-R6 format-every@parser"},
 		Variant{ID: "c16-r1-parse-raw", Prop: "C16", File: "streamer.go",
 			Old: "\t\tev, _, err = ev.StripChecksum(format)\n", New: "\t\traw := ev\n\t\tev, _, err = ev.StripChecksum(format)\n",
 			Old2: "\t\t\tif filename, offset, err = ev.Rotate(format); err != nil {", New2: "\t\t\tif filename, offset, err = raw.Rotate(format); err != nil {",
@@ -78,6 +84,133 @@ func runC16(a *A) {
 	c16R3(a)
 	c16R4(a)
 	c16R5(a)
+	// R7: what an event decodes to is a function of its bytes and the format alone
+	statelessRule(a, "C16-R7", "the event accessors and body parsers", eventMethods(a.W), a.W.Repl)
+	c16R8(a)
+}
+
+// c16Beyond: the condition (taken with value val) implies that typ is not a described type: typ == 0, or
+// typ-1 >= len(table).
+func c16Beyond(t *tb, lenAtom string, cond ssa.Value, val bool, seen *[]string) bool {
+	bo, ok := cond.(*ssa.BinOp)
+	if !ok {
+		return false
+	}
+	if (bo.Op == token.EQL && val) || (bo.Op == token.NEQ && !val) {
+		d := t.term(bo.X).add(t.term(bo.Y), -1)
+		return d.ok && len(d.syms) == 1 && d.syms["typ"] != 0 && d.c == 0
+	}
+	e, ok := t.leqZeroAff(bo, !val)
+	if !ok || lenAtom == "" {
+		return false
+	}
+	*seen = append(*seen, e.String()+" <= 0")
+	fit := affAtom(lenAtom).add(affAtom("typ"), -1).add(affConst(1), 1)
+	d := e.add(fit, -1)
+	k, isC := d.isConst()
+	return isC && k >= 0
+}
+
+// R8: HeaderSize(typ) is entry typ-1 of the table the format description carried, for every described type. An exit that
+// returns anything else must be dominated by a condition implying that the type is not described (typ-1 >= len(table), or
+// typ == 0); "typ >= len(table)" also cuts off the last described type.
+func c16R8(a *A) {
+	const rule = "C16-R8"
+	w := a.W
+	f := w.method(w.Repl, "BinlogFormat", "HeaderSize")
+	if !a.need(f != nil && len(f.Params) == 2, rule, "BinlogFormat.HeaderSize(typ)") {
+		return
+	}
+	a.touch(f)
+	t := newTB(Specialize(f, nil, nil))
+	t.names[f.Params[1]] = "typ"
+	var lenAtom string
+	instrs(f, func(in ssa.Instruction) {
+		if c, ok := in.(*ssa.Call); ok && isBuiltin(c.Common(), "len") {
+			lenAtom = t.term(c).String()
+		}
+	})
+	nIdx, bad := 0, 0
+	for _, ret := range returnsOf(f) {
+		v := resolve(ret.Results[0])
+		if u, ok := v.(*ssa.UnOp); ok && u.Op == token.MUL {
+			if ia, ok := u.X.(*ssa.IndexAddr); ok {
+				idx := t.term(ia.Index).add(affAtom("typ"), -1)
+				if k, isC := idx.isConst(); isC && k == -1 {
+					nIdx++
+					continue
+				}
+				bad++
+				a.viol(rule, fmt.Sprintf("index@HeaderSize#%d", bad), w.posOf(ret), "HeaderSize returns entry %s of the table; the post-header size of event type t is entry t-1", t.term(ia.Index).String())
+				continue
+			}
+		}
+		// a default: justified only when the type is beyond the table
+		just := false
+		var seen []string
+		conds := dominatingConds(ret.Block())
+		// "a || b": the exit is entered from several tests; each entering edge must justify it on its own
+		if len(ret.Block().Preds) > 1 {
+			all := true
+			for _, p := range ret.Block().Preds {
+				iff, ok := lastInstr(p).(*ssa.If)
+				if !ok {
+					all = false
+					break
+				}
+				val := p.Succs[0] == ret.Block()
+				cond := iff.Cond
+				for {
+					u, isNot := cond.(*ssa.UnOp)
+					if !isNot || u.Op != token.NOT {
+						break
+					}
+					cond, val = u.X, !val
+				}
+				if !c16Beyond(t, lenAtom, cond, val, &seen) {
+					all = false
+				}
+			}
+			just = all
+			conds = nil
+		}
+		for _, ce := range conds {
+			if c16Beyond(t, lenAtom, ce.Cond, ce.Val, &seen) {
+				just = true
+			}
+		}
+		for _, ce := range []condEdge{} {
+			bo, ok := ce.Cond.(*ssa.BinOp)
+			if !ok {
+				continue
+			}
+			if (bo.Op == token.EQL && ce.Val) || (bo.Op == token.NEQ && !ce.Val) {
+				d := t.term(bo.X).add(t.term(bo.Y), -1)
+				if d.ok && len(d.syms) == 1 && d.syms["typ"] != 0 && d.c == 0 {
+					just = true // typ == 0
+				}
+				continue
+			}
+			e, ok := t.leqZeroAff(bo, !ce.Val)
+			if !ok || lenAtom == "" {
+				continue
+			}
+			seen = append(seen, e.String()+" <= 0")
+			// not described: len - typ + 1 <= 0
+			fit := affAtom(lenAtom).add(affAtom("typ"), -1).add(affConst(1), 1)
+			d := e.add(fit, -1)
+			if k, isC := d.isConst(); isC && k >= 0 {
+				just = true
+			}
+		}
+		if !just {
+			bad++
+			a.viol(rule, fmt.Sprintf("default@HeaderSize#%d", bad), w.posOf(ret), "HeaderSize returns %s instead of a table entry under %v, which does not imply that the type lies beyond the table: a described event type (the last one) gets a wrong post-header size and its events are parsed from the wrong offset", describe(v), seen)
+		}
+	}
+	if bad == 0 {
+		a.check(nIdx > 0, rule, "index@HeaderSize", w.pos(f.Pos()), "entry typ-1 of the described table for every described type", "HeaderSize never returns a table entry")
+	}
 }
 
 func c16R1(a *A, r *Roles) {
@@ -162,6 +295,23 @@ func c16R6(a *A, r *Roles) {
 		}
 	}
 	a.check(okFlow, rule, "format-adopted@parser", w.posOf(fdIf), "the decoded format becomes the current format", "the result of Format() on the received event does not become the format used for later events")
+	// every format description is decoded: no way from the arm's entry back to the loop head round the Format() call
+	var fmtBlk *ssa.BasicBlock
+	instrs(r.Parser, func(in ssa.Instruction) {
+		if c, isC := in.(*ssa.Call); isC && c.Common().IsInvoke() && c.Common().Method.Name() == "Format" && c.Common().Value == r.RawEv {
+			fmtBlk = c.Block()
+		}
+	})
+	if fmtBlk != nil {
+		for _, p := range ar.Preds {
+			if p.Name != "raw.IsFormatDescription" {
+				continue
+			}
+			skip := p.Entry != fmtBlk && reachesAvoiding(p.Entry, r.LoopHead, func(b *ssa.BasicBlock) bool { return b == fmtBlk }, nil)
+			a.check(!skip, rule, "format-every@parser", w.posOf(p.If), "every format description is decoded",
+				"a format description can go round the loop without being decoded (skipped once a format is known): the checksum algorithm and header sizes announced by a later binlog file are never applied")
+		}
+	}
 }
 
 // R2: StripChecksum per algorithm value.
